@@ -137,3 +137,10 @@ T("c09-early-return-dedupe", ["C09", "C10"], RP, "        if block_hash not in c
 T("c13-cleanup-loop-form", ["C13"], MGR, "        self.transaction_pool = [t for t in self.transaction_pool if is_valid(t)]", "        self.transaction_pool = [tx for tx in self.transaction_pool if is_valid(tx)]")
 T("c13-rename-param", ["C13", "C09"], MGR, "    def set_coinstate(self, coinstate: CoinState, validated: bool = True) -> None:\n        with self.lock:\n            self.local_peer.logger.info(\"%15s ChainManager.set_coinstate(%s)\" % (\"\", coinstate))\n            self.coinstate = coinstate\n            self._cleanup_transaction_pool_for_coinstate(coinstate)\n            if validated:\n                self.last_known_valid_coinstate = coinstate",
   "    def set_coinstate(self, new_state: CoinState, validated: bool = True) -> None:\n        with self.lock:\n            self.coinstate = new_state\n            self._cleanup_transaction_pool_for_coinstate(new_state)\n            if validated:\n                self.last_known_valid_coinstate = new_state")
+
+T("c12-time-local", ["C12"], MIN, "        increasing_time = max(int(time()), self.coinstate.head().timestamp + 1)", "        now = int(time())\n        parent_time = self.coinstate.head().timestamp\n        increasing_time = max(parent_time + 1, now)")
+T("c12-local-state", ["C12"], MIN, "        self.coinstate = self.coinstate.add_block(block, int(time()))\n\n        self.network_thread.local_peer.chain_manager.set_coinstate(self.coinstate)",
+  "        new_state = self.coinstate.add_block(block, int(time()))\n        self.coinstate = new_state\n\n        self.network_thread.local_peer.chain_manager.set_coinstate(new_state)")
+T("c15-save-local-alias", ["C15"], "skepticoin/scripts/receive.py", "    wallet = open_or_init_wallet()\n    public_key = wallet.get_annotated_public_key(args.annotation)\n    save_wallet(wallet)",
+  "    w = open_or_init_wallet()\n    wallet = w\n    public_key = w.get_annotated_public_key(args.annotation)\n    save_wallet(wallet)")
+T("c15-dump-local-dict", ["C15"], WAL, "            keypairs={computer(k): computer(v) for (k, v) in d[\"keypairs\"].items()},", "            keypairs={computer(pub): computer(priv) for (pub, priv) in d[\"keypairs\"].items()},")
